@@ -300,6 +300,10 @@ theorem C20_sandbox_exact (wl : List Label) (dirs : List Str) (t : SbxTarget)
         simpa using h
   · exact Or.inr (Or.inr ⟨d, hd', (C20_sandbox_experimental_exact _ _).mp h⟩)
 
+-- non-vacuity: a whitelist with a subtree pattern, an `:all` pattern and an exact label meets the side condition
+example : ∀ w ∈ [(⟨"third_party".toList, dots, []⟩ : Label), ⟨"tools".toList, allName, []⟩, ⟨"a".toList, "x".toList, []⟩],
+    w.name = dots → w.pkg ≠ ['.'] := by decide
+
 /-- What is accepted, in terms of the two tests (by `validateSandbox_iff`). -/
 theorem C20_sandbox_characterisation (wl : List Label) (dirs : List Str) (t : SbxTarget) :
     validateSandbox facts wl dirs t = true ↔
@@ -325,6 +329,11 @@ theorem C20_witness_sandbox_experimental (he : facts.sandboxExpSlash = false) :
 theorem C20_print_parse (l : Label) (c : Canon facts l) (cp : Str) : tryParse facts (toStr l) cp [] = some l :=
   print_parse factsWF c cp
 
+-- non-vacuity: a label with a subrepo, a nested package and a plain name is canonical (decidable side conditions)
+example : Canon facts ⟨"a/b".toList, "c".toList, "s/t".toList⟩ :=
+  ⟨by decide, by decide, Or.inr (by decide), by decide, by decide, by decide⟩
+example : Canon facts ⟨"a".toList, dots, []⟩ := ⟨by decide, by decide, Or.inl rfl, subOK_nil⟩
+
 /-- Every valid explicit label string `//pkg:name` parses, to exactly its parts. -/
 theorem C20_valid_explicit_parses (p n cp sr : Str) (hp : validPkg facts p = true) (hn : validTgt facts n = true)
     (hd : n ≠ dots) : tryParse facts ('/' :: '/' :: (p ++ ':' :: n)) cp sr = some ⟨p, n, sr⟩ := by
@@ -336,6 +345,8 @@ theorem C20_valid_explicit_parses (p n cp sr : Str) (hp : validPkg facts p = tru
   simp only [List.length_cons]
   rw [parsePartsF_abs _ _ _ _ _ hh, this]
   simp [hd, validTgt_ne_nil hn]
+
+example : validPkg facts "a/b.c".toList = true ∧ validTgt facts "_x#y".toList = true ∧ "_x#y".toList ≠ dots := by decide
 
 /-- A successful parse in a valid context always yields a valid package name and a subrepo without ':' or "//". -/
 theorem C20_parse_yields_valid_package (t cp sr : Str) (l : Label) (h : tryParse facts t cp sr = some l)
